@@ -309,7 +309,9 @@ class Attr(CodegenModel):
             self.local_name = self.name
 
         if text.alnum(self.name) == "":
-            self.name = "_".join(unicodedata.name(char) for char in self.name)
+            self.name = "_".join(
+                unicodedata.name(char, f"U+{ord(char):04X}") for char in self.name
+            )
 
     @property
     def key(self) -> str:
